@@ -11,7 +11,7 @@ verus! {
 
 pub mod shims {
     use super::*;
-    pub struct DeferredNow { _o: () }
+    //@ include prelude/dnow_shim.rs
     pub struct FlexiLoggerError { _o: () }
     pub struct FileLogWriterBuilder { _o: () }
     pub struct FileLogWriterConfig { _o: () }
@@ -66,7 +66,8 @@ pub mod state_handle {
         pub(super) fn write(&self, now: &mut DeferredNow, record: &Record) -> (r: std::io::Result<()>)
             requires
                 sh_write_ok(record), //@label StateHandle::write.perm C13
-            ensures r == sh_write_result(record),
+                now_ok(old(now).origin()), //@label StateHandle::write.same_now C20
+            ensures r == sh_write_result(record), final(now).origin() == old(now).origin(),
         { unimplemented!() }
         #[verifier::external_body]
         pub(super) fn plain_write(&self, buffer: &[u8]) -> (r: std::result::Result<usize, std::io::Error>)
@@ -124,6 +125,10 @@ pub mod file_log_writer {
     //@   ret r
     //@   props C13
     //@   req[FileLogWriter::write.pre.perm] forall|x: &Record| #[trigger] sh_write_ok(x) <==> (x == record && level_num(record_level(record)) <= filter_num(self.ceiling()))
+    //@   props C20
+    //@   req[FileLogWriter::write.pre.same_now] forall|o: int| #[trigger] now_ok(o) <==> o == old(now).origin()
+    //@   ens[FileLogWriter::write.post.same_now] final(now).origin() == old(now).origin()
+    //@   props C13
     //@   ens[FileLogWriter::write.post.above] !(level_num(record_level(record)) <= filter_num(self.ceiling())) ==> r is Ok
     //@   ens[FileLogWriter::write.post.handed_over] level_num(record_level(record)) <= filter_num(self.ceiling()) ==> r == sh_write_result(record)
     //@   canary
